@@ -588,10 +588,25 @@ def _corr_cases(rng, tier):
     for _ in range(n):
         N = rng.choice([1, 2, 2, 3, 3])
         stream = "int" if rng.random() < 0.6 else "float"
-        shape = [rng.randint(3, 5) for _ in range(N)]
-        out.append({"kind": "corr", "t": gen_tensor(rng, shape, stream=stream).to_json(), "stream": stream, "dd": "float64",
-                    "d": rng.randrange(N), "order": rng.randint(1, 3), "periodic": rng.random() < 0.3,
-                    "bounds": None if rng.random() < 0.5 else [float(rng.randint(-2, 0)), float(rng.randint(1, 4))]})
+        shape = [rng.randint(3, 5) if rng.random() < 0.8 else rng.randint(1, 2) for _ in range(N)]
+        sub = rng.choice(["partial", "partial", "partial_list", "laplacian", "gradient", "partialset", "partialset", "stencil_steps"])
+        c = {"kind": "corr", "sub": sub, "t": gen_tensor(rng, shape, stream=stream).to_json(), "stream": stream, "dd": "float64",
+             "d": rng.randrange(N), "order": rng.randint(1, 3), "periodic": rng.random() < 0.3,
+             "bounds": None if rng.random() < 0.5 else [float(rng.randint(-2, 0)), float(rng.randint(1, 4))], "seed": rng.randrange(1 << 30)}
+        if sub == "partial_list":
+            k = rng.randint(1, 3)
+            c["dims"] = [rng.randrange(N) for _ in range(k)] if rng.random() < 0.3 else rng.sample(range(N), min(k, N))
+            c["pers"] = [rng.random() < 0.3 for _ in c["dims"]]
+            c["blist"] = [[float(rng.randint(-2, 0)), float(rng.randint(1, 4))] for _ in c["dims"]]
+            c["order"] = rng.randint(1, 2)
+        if sub in ("laplacian", "gradient"):
+            c["blist"] = [[float(rng.randint(-2, 0)), float(rng.randint(1, 4))] for _ in range(N)]
+        if sub == "partialset":
+            mo = rng.randint(1, 3)
+            c["orders"] = sorted(set([mo] + [rng.randint(0, mo) for _ in range(rng.randint(0, 2))]))
+            c["blist"] = [[0.0, float(rng.randint(1, 4))] for _ in range(N)]
+            c["umask"] = rng.choice([None, None, "x", "only"])
+        out.append(c)
     return out
 
 
@@ -602,7 +617,103 @@ def cases(rng, tier):  # noqa: F811
     return _orig_cases(rng, tier) + _corr_cases(rng, tier)
 
 
+def _model_dense(m):
+    return PT([np.asarray(c_, dtype=np.float64) for c_ in m.cores], [None if U is None else np.asarray(U, dtype=np.float64) for U in m.Us]).dense()
+
+
+def run_corr_ops(ctx, case, J):
+    """the routines built on top of `partial` (Model/DerivOps.lean, Model/PartialSet.lean) against the compiled model: structure where the
+    code's result is a tensor, exact error behaviour (assert / ValueError) where the model has a guard"""
+    import random as _r
+    from fractions import Fraction
+    from core import parse_tensor, cmp_struct, from_tn, q, safe, close
+    t = PT.from_json(case["t"]); sub = case["sub"]; N = t.N
+    rng = _r.Random(case["seed"])
+    ctx.case(("corr", sub, t.sig(), repr(case.get("dims")), repr(case.get("orders")), case.get("umask")), t.nontrivial(),
+             {"op": "model correspondence: " + sub, "t": t.describe()})
+    ctx.count("corr:" + sub)
+    if not (getattr(ctx, "use_model", False) and not getattr(ctx, "search_only", False)):
+        return
+    drv = ctx.drv()
+
+    def cof(b, I):          # 1/step of tn.partial: step = (b1-b0)/(I+1)*2
+        return Fraction(I + 1) / (Fraction(b[1]) - Fraction(b[0])) / 2
+
+    def cmp_t(what, impl, toks, pos=1):
+        m, pos2 = parse_tensor(toks, pos)
+        dd = cmp_struct(from_tn(impl), m, False, rtol=1e-9)
+        if dd is not None:
+            ctx.corr("%s: implementation cores differ from model cores: %s" % (what, dd), case)
+        return m, pos2
+    if sub == "stencil_steps":
+        n = rng.randint(1, 6); per = case["periodic"]
+        x = np.array([float(rng.randint(-3, 3)) for _ in range(n)])
+        b = case["bounds"] or [0.0, float(n)]
+        r = safe(lambda: tn.partial(tn.Tensor([torch.tensor(x)[None, :, None]]), 0, bounds=b, periodic=per).torch().numpy())
+        toks = drv.call("stencil_steps %d %s %d %s" % (1 if per else 0, q(cof(b, n)), n, " ".join(q(v) for v in x)))
+        if r[0] == "err":
+            ctx.oracle("partial on a single fibre of size %d (periodic=%s) raised %s: %s" % (n, per, r[1], r[2]), case); return
+        mv = np.array([float(core.unq(v.split("~")[0])) for v in toks[2:]]) if toks[0] == "ok" else None
+        if mv is None or not close(mv, r[1], 1e-9)[0]:
+            ctx.corr("partial on one fibre %s (periodic=%s): implementation %s, the model's step-by-step stencil %s" % (x.tolist(), per, r[1].tolist(), toks[:8]), case)
+        return
+    if sub == "partial_list":
+        dims, pers, bl, order = case["dims"], case["pers"], case["blist"], case["order"]
+        r = safe(lambda: tn.partial(t.to_tn(), dims, order=order, bounds=bl, periodic=pers))
+        if r[0] == "err":
+            ctx.oracle("partial(dim=%s, order=%d, periodic=%s) raised %s: %s" % (dims, order, pers, r[1], r[2]), case); return
+        toks = drv.call("partial_list %d %d %s %s" % (order, len(dims), " ".join("%d %s %d" % (d, q(cof(b, t.shape[d])), 1 if p_ else 0)
+                                                                                 for d, b, p_ in zip(dims, bl, pers)), t.ser()))
+        if toks[0] != "ok":
+            ctx.corr("model partial_list failed: %s" % " ".join(toks[:4]), case); return
+        cmp_t("partial(dim=%s)" % dims, r[1], toks)
+        return
+    if sub == "laplacian":
+        bl = case["blist"]
+        if rng.random() < 0.1 and N > 1:
+            bl = bl[:-1]                                             # wrong number of bounds: both sides must reject
+        r = safe(lambda: tn.laplacian(t.to_tn(), bounds=bl))
+        toks = drv.call("laplacian %d %s %s" % (len(bl), " ".join(q(cof(b, t.shape[n])) for n, b in enumerate(bl)), t.ser()))
+        if r[0] == "err" or toks[0] != "ok":
+            if not (r[0] == "err" and toks[0] == "err" and r[1] == "AssertionError" and len(bl) != N):
+                ctx.corr("laplacian: implementation %s, model %s" % (r[:2] if r[0] == "err" else "ok", toks[:2]), case)
+            return
+        cmp_t("laplacian", r[1], toks)
+        return
+    if sub == "gradient":
+        bl = case["blist"]; dims = list(range(N))
+        r = safe(lambda: tn.gradient(t.to_tn(), dim=dims, bounds=bl))
+        if r[0] == "err":
+            ctx.oracle("gradient raised %s: %s" % (r[1], r[2]), case); return
+        toks = drv.call("gradient %d %s %s" % (N, " ".join("%d %s" % (d, q(cof(bl[d], t.shape[d]))) for d in dims), t.ser()))
+        if toks[0] != "ok" or toks[1] != "L" or int(toks[2]) != len(r[1]):
+            ctx.corr("model gradient answered %s" % " ".join(toks[:4]), case); return
+        pos = 3
+        for k, g in enumerate(r[1]):
+            _, pos = cmp_t("gradient component %d" % k, g, toks, pos)
+        return
+    # partialset
+    orders, bl, um = case["orders"], case["blist"], case["umask"]
+    mask = None
+    if um is not None:
+        xs = tn.symbols(N)
+        mask = xs[rng.randrange(N)] if um == "x" else tn.only(xs[rng.randrange(N)] | xs[rng.randrange(N)])
+    r = safe(lambda: tn.partialset(t.to_tn(), orders, mask, bl))
+    cs = [(Fraction(s - 1) / (Fraction(b[1]) - Fraction(b[0]))) if s > 1 else Fraction(1) for s, b in zip(t.shape, bl)]
+    toks = drv.call("partialset %d %s %d %s %s%s" % (len(orders), " ".join(map(str, orders)), N, " ".join(q(c) for c in cs),
+                                                      ("1 " + from_tn(mask).ser() + " ") if mask is not None else "0 ", t.ser()))
+    if r[0] == "err" or toks[0] != "ok":
+        if not (r[0] == "err" and toks[0] == "err" and r[1] in ("ValueError", "ZeroDivisionError")):
+            ctx.corr("partialset(order=%s): implementation %s, model %s" % (orders, r[:3] if r[0] == "err" else "ok", toks[:2]), case)
+        else:
+            ctx.count("corr:partialset rejected by both")
+        return
+    cmp_t("partialset(order=%s, mask=%s)" % (orders, um), r[1], toks)
+
+
 def run_corr(ctx, case, J):
+    if case.get("sub", "partial") != "partial":
+        return run_corr_ops(ctx, case, J)
     from fractions import Fraction
     from core import parse_tensor, cmp_struct, from_tn, q, safe, close
     t = PT.from_json(case["t"])
@@ -632,6 +743,8 @@ def run_corr(ctx, case, J):
     for _ in range(order):
         if per:
             y = (np.roll(y, -1, axis=d) - np.roll(y, 1, axis=d)) / step
+        elif I == 1:
+            y = np.zeros_like(y)            # a single point: nothing to difference (the padded fibre is constant)
         else:
             first = np.take(y, [0], axis=d); second = np.take(y, [1], axis=d)
             last = np.take(y, [-1], axis=d); prev = np.take(y, [-2], axis=d)
